@@ -23,6 +23,7 @@ type MapLike interface {
 	Size() int
 	Stats() xsync.MapStats
 	Chain(bucket int) []string
+	ChainKeys(bucket int) [][]string
 	RootBuckets() int
 }
 
@@ -243,3 +244,40 @@ func newContainer(c ContainerKind, l Layout, opts ...func(*xsync.MapConfig)) Map
 	}
 	panic("bad container")
 }
+
+// detHash is a deterministic string hash (FNV-1a + finalizer) used where the
+// layout must be reproducible across processes (the runtime's memhash is keyed
+// by a per-process random value).
+func detHash(s string, seed uint64) uint64 {
+	h := uint64(14695981039346656037) ^ seed
+	for i := 0; i < len(s); i++ {
+		h ^= uint64(s[i])
+		h *= 1099511628211
+	}
+	h ^= h >> 33
+	h *= 0xff51afd7ed558ccd
+	h ^= h >> 33
+	h *= 0xc4ceb9fe1a85ec53
+	h ^= h >> 33
+	return h
+}
+
+// installDetHash makes Map, MapOf[string,*] and MapOf[int,*] (default hasher) use detHash with
+// the seed sequence base, base+1, ... (one seed per table generation).
+func installDetHash(base uint64) {
+	n := base
+	xsync.VerifSeed = func() uint64 { n++; return n }
+	xsync.VerifHashString = detHash
+	xsync.VerifHasher = func(zero interface{}) interface{} {
+		switch zero.(type) {
+		case string:
+			return func(k string, seed uint64) uint64 { return detHash(k, seed) }
+		case int:
+			return func(k int, seed uint64) uint64 { return detHash(strconv.Itoa(k), seed) }
+		}
+		return nil
+	}
+}
+
+func (a mapAdapter) ChainKeys(b int) [][]string         { return a.m.VerifChainKeys(b) }
+func (a mapOfAdapter[K, V]) ChainKeys(b int) [][]string { return a.m.VerifChainKeys(b) }
